@@ -743,3 +743,358 @@ Section RT2.
     - intros _. reflexivity.
   Qed.
 End RT2.
+
+Section RT3.
+  Variable extra : expr -> bool.
+  Local Notation bodyx := (body extra).
+  Local Notation prx := (pr extra).
+  Local Notation needsx := (needs extra).
+  Local Notation GoodAt := (GoodAt extra).
+
+  Definition GoodPr (e : expr) : Prop := forall tb lv m rest B f,
+      lv <= m -> m <= 12 -> (tb = true -> 2 <= m) ->
+      ctx_ok tb B lv rest -> need e + 16 + B <= f ->
+      parse_at f tb lv (prx m e ++ rest) = POk e rest.
+
+  Lemma goodpr_of_good : forall e, printable e = true -> GoodAt e -> GoodPr e.
+  Proof.
+    intros e P G tb lv m rest B f Hlm Hm Htb Hc Hf.
+    unfold pr, wrap. destruct (needsx m e) eqn:N.
+    - cbn [app]. rewrite <- app_assoc. cbn [app].
+      apply (wrapped_of_good extra e P G tb lv rest B f); auto. lia.
+    - unfold needs in N. apply Bool.orb_false_elim in N. destruct N as [N _].
+      apply Nat.ltb_ge in N.
+      apply (G tb lv rest B f); try lia; auto.
+      intros E. specialize (Htb E). lia.
+  Qed.
+
+  (* a primary that does not use the expression parser *)
+  Lemma leaf_good : forall e ts,
+    bodyx e = ts -> level e = 12 -> not_unop ts ->
+    (forall pe tb g rest, no_postfix rest -> primary pe tb (S g) (ts ++ rest) = POk e rest) ->
+    GoodAt e.
+  Proof.
+    intros e ts Hb Hl Hu Hp tb lv rest B f Hlv Htb [Hs [Hn Hq]] Hf.
+    assert (Hsz := size_pos e). unfold need in Hf. rewrite Hb.
+    replace f with (S (S (f + lv - 14)) + (12 - lv)) by lia.
+    apply from_primary; try lia.
+    - apply Hp. exact Hn.
+    - exact Hs.
+    - intros _. destruct ts as [|[k t] r]; [destruct Hu|]. exact Hu.
+  Qed.
+
+  Lemma good_none : GoodAt ENone.
+  Proof.
+    apply (leaf_good ENone [tk KNone "NONE"]); try reflexivity.
+    intros. apply primary_none. assumption.
+  Qed.
+  Lemma good_bool : forall b, GoodAt (EBool b).
+  Proof.
+    intros b. apply (leaf_good (EBool b) [if b then tk KBool "true" else tk KBool "false"]); try reflexivity.
+    - destruct b; reflexivity.
+    - intros. destruct b; cbn [app]; unfold tk; rewrite primary_bool by assumption; reflexivity.
+  Qed.
+  Lemma good_int : forall z, int_ok z = true -> GoodAt (EInt z).
+  Proof.
+    intros z P. unfold int_ok in P. apply andb_prop in P. destruct P as [P0 P1].
+    apply Z.leb_le in P0.
+    assert (E : (z <? 0)%Z = false) by (apply Z.ltb_ge; lia).
+    apply (leaf_good (EInt z) [(KInt, digits (Z.to_N z))]).
+    - cbn [body]. rewrite E. reflexivity.
+    - cbn [level]. rewrite E. reflexivity.
+    - reflexivity.
+    - intros. cbn [app]. apply primary_int; [|assumption].
+      destruct (int_value (digits (Z.to_N z))) as [z'|]; [|discriminate].
+      apply Z.eqb_eq in P1. congruence.
+  Qed.
+  Lemma good_str : forall s, str_ok s = true -> GoodAt (EStr s).
+  Proof.
+    intros s P. apply (leaf_good (EStr s) [quote_tok s]); try reflexivity.
+    intros. cbn [app]. unfold quote_tok. rewrite primary_str by assumption.
+    f_equal. f_equal. apply (str_value_quote s P).
+  Qed.
+  Lemma good_var : forall x, var_ok x = true -> GoodAt (EVar x).
+  Proof.
+    intros x P. apply (leaf_good (EVar x) [word_tok x]); try reflexivity.
+    - unfold word_tok, not_unop. apply good_head_varname. exact P.
+    - intros. cbn [app]. unfold word_tok. apply primary_var; assumption.
+  Qed.
+  Lemma good_param : forall x, var_ok x = true -> GoodAt (EParam x).
+  Proof.
+    intros x P. apply (leaf_good (EParam x) [tk KParam "@"; word_tok x]); try reflexivity.
+    intros. cbn [app]. unfold word_tok, tk. apply primary_param; assumption.
+  Qed.
+End RT3.
+
+Lemma parse_seq_step : forall pe g is_close ts k,
+  hd_kind ts = Some k -> is_close k = false ->
+  parse_seq pe (S g) is_close ts =
+  match pe false 1 ts with
+  | POk e ((k', _) :: r') =>
+      if is_close k' then POk [e] r'
+      else match k' with
+           | KComma => mapr (cons e) (parse_seq pe g is_close r')
+           | _ => PFail
+           end
+  | POk _ [] => PFail
+  | PFail => PFail
+  | PFuel => PFuel
+  end.
+Proof.
+  intros pe g is_close ts k H Hc. destruct ts as [|[k0 t0] r0]; [discriminate|].
+  simpl in H. inversion H; subst. cbn [parse_seq]. rewrite Hc. reflexivity.
+Qed.
+
+Lemma hd_not_unop : forall ts k, hd_kind ts = Some k -> unop_of k = None -> not_unop ts.
+Proof. intros ts k H U. destruct ts as [|[k0 t0] r0]; [discriminate|]. simpl in *. congruence. Qed.
+
+Section RT4.
+  Variable extra : expr -> bool.
+  Local Notation bodyx := (body extra).
+  Local Notation prx := (pr extra).
+  Local Notation needsx := (needs extra).
+  Local Notation GoodAt := (GoodAt extra).
+  Local Notation GoodPr := (GoodPr extra).
+
+  Variable n : nat.
+  Hypothesis IH : forall e, size e <= n -> printable e = true -> GoodAt e.
+
+  Lemma IHpr : forall e, size e <= n -> printable e = true -> GoodPr e.
+  Proof. intros e Hs P. apply goodpr_of_good; auto. Qed.
+
+  Definition sum_size (es : list expr) : nat := fold_right (fun x n => size x + n) 0 es.
+
+  Lemma seq_good : forall es,
+    (forall x, In x es -> size x <= n /\ printable x = true) ->
+    forall is_close ck ct rest f g,
+      is_close ck = true -> closer ck = true -> is_close KComma = false ->
+      (forall k, good_head k = true -> is_close k = false) ->
+      32 * sum_size es + 16 <= f -> List.length es < g ->
+      parse_seq (parse_at f) g is_close (pr_list extra es ++ (ck, ct) :: rest) = POk es rest.
+  Proof.
+    induction es as [|x es IHes]; intros Hall is_close ck ct rest f g Hck Hcl Hcomma Hgh Hf Hg.
+    - destruct g; [simpl in Hg; lia|]. cbn [pr_list app parse_seq]. rewrite Hck. reflexivity.
+    - destruct g; [simpl in Hg; lia|].
+      destruct (Hall x (or_introl eq_refl)) as [Hsx Px].
+      assert (Hx : forall rest', ctx_ok false 0 1 rest' ->
+                 parse_at f false 1 (prx 1 x ++ rest') = POk x rest').
+      { intros rest' Hc. apply (IHpr x Hsx Px false 1 1 rest' 0 f); auto; try lia; try discriminate.
+        unfold need. simpl in Hf. unfold sum_size in Hf. simpl in Hf. lia. }
+      destruct es as [|y es'].
+      + cbn [pr_list].
+        destruct (pr_hd_kind extra 1 x ((ck, ct) :: rest) Px) as (k & Hk & Hgk & _).
+        rewrite (parse_seq_step _ _ _ _ k Hk (Hgh k Hgk)).
+        rewrite Hx by (apply ctx_closer; exact Hcl). rewrite Hck. reflexivity.
+      + change (pr_list extra (x :: y :: es')) with (prx 1 x ++ COMMA :: pr_list extra (y :: es')).
+        rewrite <- app_assoc. cbn [app].
+        destruct (pr_hd_kind extra 1 x (COMMA :: pr_list extra (y :: es') ++ (ck, ct) :: rest) Px) as (k & Hk & Hgk & _).
+        rewrite (parse_seq_step _ _ _ _ k Hk (Hgh k Hgk)).
+        rewrite Hx by (apply ctx_closer; reflexivity).
+        unfold COMMA, tk. rewrite Hcomma.
+        rewrite IHes; auto.
+        * intros z Hz. apply Hall. right. exact Hz.
+        * simpl in Hf. unfold sum_size in *. simpl in *. lia.
+        * simpl in *. lia.
+  Qed.
+
+  Lemma loop_step : forall L a b ops mk e tb rest B f g,
+    bin_view e = Some (L, a, b, ops, mk) -> size b <= n -> printable b = true ->
+    ctx_ok tb B (S L) rest -> need b + 16 + B <= f ->
+    bin_loop (parse_at f) tb (S g) L a (ops ++ prx (S L) b ++ rest)
+    = bin_loop (parse_at f) tb g L (mk a b) rest.
+  Proof.
+    intros L a b ops mk e tb rest B f g V Hsb Pb Hc Hf.
+    destruct (bin_view_spec extra e L a b ops mk V) as (_ & _ & HL & _ & Hop & _).
+    rewrite bin_loop_S. rewrite Hop.
+    rewrite (IHpr b Hsb Pb tb (S L) (S L) rest B f); auto.
+    - destruct L as [|[|[|[|[|[|[|[|[|[|[|[|L]]]]]]]]]]]]; try discriminate; lia.
+    - intros _. destruct L as [|[|L]]; try discriminate; lia.
+  Qed.
+
+  Lemma RL : forall m a, size a <= m -> m <= n -> printable a = true ->
+    forall L tb rest B f, bin_level L = true -> ctx_ok tb B (S L) rest -> need a + 16 + B <= f ->
+    exists c, c <= size a /\ forall g,
+      bindr (parse_at f tb (S L) (prx L a ++ rest)) (bin_loop (parse_at f) tb (g + c) L)
+      = bin_loop (parse_at f) tb g L a rest.
+  Proof.
+    induction m as [|m IHm]; intros a Hsa Hmn Pa L tb rest B f HL Hc Hf.
+    { pose proof (size_pos a). lia. }
+    assert (HL2 : 2 <= L /\ L <= 11).
+    { destruct L as [|[|[|[|[|[|[|[|[|[|[|[|L]]]]]]]]]]]]; try discriminate; lia. }
+    assert (Ga : GoodAt a) by (apply IH; auto; lia).
+    unfold pr, wrap. destruct (needsx L a) eqn:N.
+    - exists 0. split; [lia|]. intros g. rewrite Nat.add_0_r.
+      cbn [app]. rewrite <- app_assoc. cbn [app].
+      rewrite (wrapped_of_good extra a Pa Ga tb (S L) rest B f); auto; try lia.
+    - unfold needs in N. apply Bool.orb_false_elim in N. destruct N as [N _].
+      apply Nat.ltb_ge in N.
+      destruct (Nat.eq_dec (level a) L) as [E|NE].
+      + destruct (bin_view a) as [[[[[L' a1] a2] ops] mk]|] eqn:V.
+        * destruct (bin_view_spec extra a L' a1 a2 ops mk V) as (Ea & El & _ & Hb & Hop & Hst & Hnp & Hq & Hsz & Hpr).
+          assert (HLL : L' = L) by congruence. clear El. subst L'.
+          rewrite Hpr in Pa. apply andb_prop in Pa. destruct Pa as [P1 P2].
+          destruct (IHm a1) with (L := L) (tb := tb) (rest := ops ++ prx (S L) a2 ++ rest) (B := 0) (f := f)
+            as (c & Hcs & Hcg); auto; try lia.
+          { split; [|split].
+            - intros l Hl. apply Hst. lia.
+            - apply Hnp.
+            - specialize (Hq (prx (S L) a2 ++ rest)).
+              destruct (ops ++ prx (S L) a2 ++ rest) as [|[k t] r]; [exact I|].
+              destruct k; try exact I. simpl in Hq. congruence. }
+          { unfold need in *. lia. }
+          exists (S c). split; [lia|]. intros g.
+          rewrite Hb. rewrite <- !app_assoc.
+          replace (g + S c) with (S g + c) by lia.
+          rewrite Hcg.
+          rewrite (loop_step L a1 a2 ops mk a tb rest B f g V); auto; try lia.
+          -- rewrite <- Ea. reflexivity.
+          -- unfold need in *. lia.
+        * apply bin_view_none in V. rewrite E in V. congruence.
+      + exists 0. split; [lia|]. intros g. rewrite Nat.add_0_r.
+        rewrite (Ga tb (S L) rest B f); auto; try lia.
+  Qed.
+End RT4.
+
+Lemma tern_loop_S_some : forall pe tb g c q k0 t0 r0,
+  k0 <> KColon ->
+  tern_loop pe tb (S g) c ((KQuestion, q) :: (k0, t0) :: r0) =
+  bind_tok (pe true 1 ((k0, t0) :: r0)) is_colon (fun t r' =>
+    bindr (pe tb 2 r') (fun e r'' => tern_loop pe tb g (ECond c (Some t) e) r'')).
+Proof. intros. rewrite tern_loop_S. destruct k0; try reflexivity. congruence. Qed.
+
+Lemma tern_loop_S_hd : forall pe tb g c q ts k,
+  hd_kind ts = Some k -> k <> KColon ->
+  tern_loop pe tb (S g) c ((KQuestion, q) :: ts) =
+  bind_tok (pe true 1 ts) is_colon (fun t r' =>
+    bindr (pe tb 2 r') (fun e r'' => tern_loop pe tb g (ECond c (Some t) e) r'')).
+Proof.
+  intros pe tb g c q ts k H HC. destruct ts as [|[k0 t0] r0]; [discriminate|].
+  simpl in H. inversion H; subst. apply tern_loop_S_some. exact HC.
+Qed.
+
+Lemma no_postfix_q : forall q ts k, hd_kind ts = Some k -> k <> KDot -> no_postfix ((KQuestion, q) :: ts).
+Proof.
+  intros q ts k H HD. destruct ts as [|[k0 t0] r0]; [exact I|].
+  simpl in H. inversion H; subst. destruct k; try exact I. congruence.
+Qed.
+
+Lemma tern_ahead_ok : forall pe ts k t x r,
+  hd_kind ts = Some k -> k <> KColon -> pe false 1 ts = POk t ((KColon, x) :: r) ->
+  tern_ahead pe ts = Some true.
+Proof.
+  intros pe ts k t x r H HC Hp. unfold tern_ahead. rewrite Hp.
+  destruct ts as [|[k0 t0] r0]; [discriminate|].
+  simpl in H. inversion H; subst. destruct k; reflexivity.
+Qed.
+
+Lemma stops_question : forall l t r, 2 <= l -> stops l ((KQuestion, t) :: r).
+Proof.
+  intros l t r H.
+  destruct l as [|[|[|[|[|[|[|[|[|[|[|[|l]]]]]]]]]]]]; simpl; try lia; try reflexivity; exact I.
+Qed.
+
+Section RT5.
+  Variable extra : expr -> bool.
+  Local Notation bodyx := (body extra).
+  Local Notation prx := (pr extra).
+  Local Notation needsx := (needs extra).
+  Local Notation GoodAt := (GoodAt extra).
+  Local Notation GoodPr := (GoodPr extra).
+
+  Variable n : nat.
+  Hypothesis IH : forall e, size e <= n -> printable e = true -> GoodAt e.
+
+  Definition opt_size (t : option expr) : nat := match t with Some t' => size t' | None => 0 end.
+  Definition opt_ok (t : option expr) : Prop :=
+    match t with Some t' => size t' <= n /\ printable t' = true | None => True end.
+  Definition opt_toks (t : option expr) : toks := match t with Some t' => prx 2 t' | None => [] end.
+
+  Lemma tern_step : forall c t e0 rest B f g,
+    opt_ok t -> size e0 <= n -> printable e0 = true ->
+    ctx_ok false B 2 rest -> 32 * opt_size t + need e0 + 16 + B <= f ->
+    tern_loop (parse_at f) false (S g) c
+      (tk KQuestion "?" :: opt_toks t ++ tk KColon ":" :: prx 2 e0 ++ rest)
+    = tern_loop (parse_at f) false g (ECond c t e0) rest.
+  Proof.
+    intros c t e0 rest B f g Ht Hs0 P0 Hc Hf.
+    assert (He0 : parse_at f false 2 (prx 2 e0 ++ rest) = POk e0 rest).
+    { apply (IHpr extra n IH e0 Hs0 P0 false 2 2 rest B f); auto; try lia; try discriminate. }
+    destruct t as [t'|]; cbn [opt_toks opt_size opt_ok] in *.
+    - destruct Ht as [Hst Pt].
+      destruct (pr_hd_kind extra 2 t' (tk KColon ":" :: prx 2 e0 ++ rest) Pt) as (k & Hk & Hg & _).
+      destruct (good_head_facts k Hg) as (_ & HC & _).
+      unfold tk at 1.
+      rewrite (tern_loop_S_hd _ _ _ _ _ _ k Hk HC).
+      rewrite (IHpr extra n IH t' Hst Pt true 1 2 (tk KColon ":" :: prx 2 e0 ++ rest) 0 f); auto; try lia.
+      + unfold tk at 1. cbn [bind_tok is_colon]. rewrite He0. reflexivity.
+      + apply ctx_closer. reflexivity.
+      + unfold need. lia.
+    - cbn [app]. unfold tk. rewrite tern_loop_S. rewrite He0. reflexivity.
+  Qed.
+
+  Lemma body_cond : forall c t e0,
+    bodyx (ECond c t e0) = prx 1 c ++ tk KQuestion "?" :: opt_toks t ++ tk KColon ":" :: prx 2 e0.
+  Proof. intros. destruct t; reflexivity. Qed.
+
+  (* the context of the condition of a ternary *)
+  Lemma cond_ctx : forall t e0 rest,
+    opt_ok t ->
+    ctx_ok false (32 * opt_size t + 16) 2
+      (tk KQuestion "?" :: opt_toks t ++ tk KColon ":" :: prx 2 e0 ++ rest).
+  Proof.
+    intros t e0 rest Ht. split; [|split].
+    - intros l Hl. apply stops_question. lia.
+    - destruct t as [t'|]; cbn [opt_toks opt_ok] in *.
+      + destruct Ht as [_ Pt].
+        destruct (pr_hd_kind extra 2 t' (tk KColon ":" :: prx 2 e0 ++ rest) Pt) as (k & Hk & Hg & _).
+        destruct (good_head_facts k Hg) as (_ & _ & HD & _).
+        unfold tk at 1. apply (no_postfix_q _ _ k Hk HD).
+      + exact I.
+    - unfold tk at 1. cbn [q_ok]. intros f Hf.
+      destruct t as [t'|]; cbn [opt_toks opt_ok opt_size] in *.
+      + destruct Ht as [Hst Pt].
+        destruct (pr_hd_kind extra 2 t' (tk KColon ":" :: prx 2 e0 ++ rest) Pt) as (k & Hk & Hg & _).
+        destruct (good_head_facts k Hg) as (_ & HC & _).
+        apply (tern_ahead_ok _ _ k t' (bs ":") (prx 2 e0 ++ rest) Hk HC).
+        apply (IHpr extra n IH t' Hst Pt false 1 2 (tk KColon ":" :: prx 2 e0 ++ rest) 0 f); auto; try lia; try discriminate.
+        * apply ctx_closer. reflexivity.
+        * unfold need. lia.
+      + reflexivity.
+  Qed.
+
+  Lemma RT : forall m c, size c <= m -> m <= n -> printable c = true ->
+    forall rest B f, ctx_ok false B 2 rest -> need c + 16 + B <= f ->
+    exists k, k <= size c /\ forall g,
+      bindr (parse_at f false 2 (prx 1 c ++ rest)) (tern_loop (parse_at f) false (g + k))
+      = tern_loop (parse_at f) false g c rest.
+  Proof.
+    induction m as [|m IHm]; intros c Hsc Hmn Pc rest B f Hc Hf.
+    { pose proof (size_pos c). lia. }
+    assert (Gc : GoodAt c) by (apply IH; auto; lia).
+    unfold pr, wrap. destruct (needsx 1 c) eqn:N.
+    - exists 0. split; [lia|]. intros g. rewrite Nat.add_0_r.
+      cbn [app]. rewrite <- app_assoc. cbn [app].
+      rewrite (wrapped_of_good extra c Pc Gc false 2 rest B f); auto; try lia.
+    - destruct (Nat.eq_dec (level c) 1) as [E|NE].
+      + destruct (level_one c E) as (c0 & t0 & f0 & ->).
+        simpl in Pc. apply andb_prop in Pc. destruct Pc as [Pc P3].
+        apply andb_prop in Pc. destruct Pc as [P1 P2].
+        simpl in Hsc.
+        assert (Ht : opt_ok t0).
+        { destruct t0; cbn [opt_ok]; [split; [lia|exact P2]|exact I]. }
+        assert (Hts : opt_size t0 = match t0 with Some t' => size t' | None => 0 end) by reflexivity.
+        destruct (IHm c0) with (rest := tk KQuestion "?" :: opt_toks t0 ++ tk KColon ":" :: prx 2 f0 ++ rest)
+                               (B := 32 * opt_size t0 + 16) (f := f) as (k & Hks & Hkg); auto; try lia.
+        { apply (cond_ctx t0 f0 rest Ht). }
+        { unfold need in *. simpl in Hf. rewrite <- Hts in Hf. lia. }
+        exists (S k). split; [simpl; lia|]. intros g.
+        rewrite body_cond. rewrite <- !app_assoc. cbn [app]. rewrite <- !app_assoc.
+        replace (g + S k) with (S g + k) by lia.
+        rewrite Hkg.
+        apply (tern_step c0 t0 f0 rest B f g Ht); auto; try lia.
+        unfold need in *. simpl in Hf. rewrite <- Hts in Hf. lia.
+      + exists 0. split; [lia|]. intros g. rewrite Nat.add_0_r.
+        pose proof (level_ge_1 c).
+        rewrite (Gc false 2 rest B f); auto; try lia. discriminate.
+  Qed.
+End RT5.
